@@ -130,7 +130,7 @@ or the schedule: for every reachable closed pipe state over `n` selected items t
 `List.range n`, hence the delivered items are `(selectIdx …).map process` — stated here as the composition
 lemma -/
 theorem stream_independent_of_threads (Wt Wt' n : Nat) (hW : 1 ≤ Wt) (hW' : 1 ≤ Wt') (s s' : PState)
-    (h : PReach Wt n s) (h' : PReach Wt' n s') (hc : s.closed = true) (hc' : s'.closed = true) :
+    (h : PReach Wt (fused n) s) (h' : PReach Wt' (fused n) s') (hc : s.closed = true) (hc' : s'.closed = true) :
     s.recvd = s'.recvd ∧ s.recvd = List.range n := by
   have a := (Tu.C05.pipe_complete Wt n hW s h hc).1
   have b := (Tu.C05.pipe_complete Wt' n hW' s' h' hc').1
